@@ -229,7 +229,7 @@ def check(run):
                        "INTEGER PRIMARY KEY / text-PK / WITHOUT ROWID tables, Columns) x exit path (runs to the end, callback asks to stop, callback panics, unknown table / column / index, "
                        "no matching row): while the row callback is running, ANOTHER process probes the three lock regions with F_GETLK and a real SQLite writer tries to COMMIT "
                        "(must be 'database is locked'); after the call has returned both are repeated (nothing held, COMMIT succeeds). The expected lock table rows come from the extracted "
-                       "Model/Lock.v run on the matching schedule. Then the three same-process-second-handle histories. non-trivial = distinct (entry point, exit path) scenarios")
+                       "Model/Lock.v run on the matching schedule. Then the three same-process-second-handle histories. non-trivial = distinct (entry point, exit path) scenarios Reads refused on a held lock region (SHARED, PENDING, one merged lock over both) leave nothing behind and the handle's next read holds SHARED again; a read that fails after the lock was taken (file switched to WAL elsewhere) releases it.")
     run.cov["distribution"] = dist
     run.sample({"scenario": "hold panic iselecteq t t_a i3 a,b", "during_callback": exp_locked + ", writer locked", "after": exp_after + ", writer committed"})
     run.assumptions += ["Linux POSIX record locks (fcntl F_SETLK / F_GETLK); the kernel's semantics are the model's hypotheses", "SQLite 3.40.1 unix VFS as the writer"]
